@@ -65,7 +65,7 @@ TraceInvalid ==
 
 (* Cli.tla: one run of the binary = the composition of the machine's steps; only the terminal state is observable *)
 IsDirKind(k) == k \in {"dir", "dir_slash", "symlink_dir"}
-CanInfer(f, k) == k \in {"file", "devfull", "existing_larger"} /\ f # "archlinux"
+CanInfer(f, k) == (k \in {"file", "devfull", "existing_larger"} /\ f # "archlinux") \/ k = "file_other_ext"
 ExpectFail(a) == a.fault # "none" \/ (~a.with_p /\ ~CanInfer(a.fmt, a.target_kind))
 
 TraceCli ==
@@ -84,6 +84,8 @@ TraceCli ==
             ELSE Cl(e.exit = 0, "C15.cli_succeeds")
                  \cup Cl(e.file_at_expected, "C15.cli_writes_to_requested_target")
                  \cup Cl(e.bytes_equal_library_build, "C06.cli_output_complete")
+                 \* ... of the packager given with -p whatever the target is called, else the one the target's extension names
+                 \cup Cl(e.bytes_equal_library_build, "C15.cli_packages_with_the_packager_asked_for")
                  \* the reference is the library build of the settings in effect for this format (its override block applied)
                  \cup Cl(e.bytes_equal_library_build, "C13.cli_builds_effective_settings_of_packaged_format")
                  \* ... and of the literal values: the file the tool read spells a version, a relation and an opted-in content
